@@ -901,3 +901,8 @@ mod tests {
         assert_eq!(&snap2.bytes[..], &data[..MAX_READ_AHEAD + 1]);
     }
 }
+
+#[cfg(serde_saphyr_verif)]
+pub(crate) fn verif_trim(bytes: Vec<u8>, start_offset: u64, start_line: usize) -> (u64, usize, Vec<u8>) {
+    trim_to_utf8_boundaries_with_line(bytes, start_offset, start_line)
+}
